@@ -10,10 +10,64 @@ import Asn1cModel.Props.C02Uper
     lemmas, and the INTEGER strip loop (Proofs/Integer.lean);
   * CANONICAL-XER (Props/C01Xer.lean, the model of asn1c's XER codec): `cxer_setOf_perm`, and - finding F56
     repaired - `cxer_seq_default_indep`, `cxer_set_default_indep`: the text does not depend on whether a component
-    holding its DEFAULT value is stored or absent;
+    holding its DEFAULT value is stored or absent; the order in which the components of a SET are written (below,
+    finding F65 repaired): `setCxerOrder_perm`, `setCxerOrder_root`, `setCxerOrder_additions`, `setCxerOrder_full`;
   * canonical OER (Props/C02Oer.lean, the X.696 reference, which the C encoder equals on SET OF since the repair of
     finding F55): `encOER_setOf_perm`;
   * canonical PER (Props/C02Uper.lean, the X.691 reference): `seq_default_omitted` for root components and - finding
     F16 repaired - `seq_default_addition_omitted` for extension additions.
-  This file only gathers the imports so that the check builds exactly this closure.
+  This file gathers the imports so that the check builds exactly this closure, and states the SET order.
 -/
+
+namespace Asn1c.Props.C06
+open Asn1c Asn1c.L2 Asn1c.L2.Xer Asn1c.Impl.BerTlv
+
+/-! ### the order of the components of a SET in (CANONICAL-)XER (finding F65 repaired)
+
+`SET_encode_xer` walks `tag2el_cxer`, which asn1c now emits for every extensible SET whose order differs from the
+table of all tags (the two tables were compared with `memcmp` over `count` BYTES, so the CXER table was mostly dropped
+and an extension addition with a small tag was written before the root).  `setCxerOrder keys n total` is that table
+for a SET with `total` components whose first `n` form the extension root, `keys` being their (smallest) tags. -/
+
+/-- every component is written exactly once -/
+theorem setCxerOrder_perm (keys : List Tag) (n total : Nat) (hn : n ≤ total) (hk : keys.length = total) :
+    (setCxerOrder keys n total).Perm (List.range total) := by
+  unfold setCxerOrder
+  have h1 := Asn1c.Props.C02Uper.canonicalOrder_perm (keys.take n)
+  rw [List.length_take, Nat.min_eq_left (by omega)] at h1
+  have h2 : List.range total = List.range n ++ (List.range (total - n)).map (· + n) := by
+    conv_lhs => rw [show total = n + (total - n) by omega, List.range_add]
+    congr 1
+    apply List.map_congr_left
+    intro a _; omega
+  rw [h2]
+  exact h1.append_right _
+
+/-- the extension root comes first, in the canonical order of its tags (X.680 §8.6: `canonicalOrder_sorted`) -/
+theorem setCxerOrder_root (keys : List Tag) (n total : Nat) (hk : n ≤ keys.length) :
+    (setCxerOrder keys n total).take n = canonicalOrder (keys.take n) := by
+  unfold setCxerOrder
+  have hl : (canonicalOrder (keys.take n)).length = n := by
+    rw [Asn1c.Props.C02Uper.canonicalOrder_length, List.length_take]; omega
+  rw [List.take_append_of_le_length (by omega), List.take_of_length_le (by omega)]
+
+/-- the extension additions follow, in textual order, whatever their tags are -/
+theorem setCxerOrder_additions (keys : List Tag) (n total : Nat) (hk : n ≤ keys.length) :
+    (setCxerOrder keys n total).drop n = (List.range (total - n)).map (· + n) := by
+  unfold setCxerOrder
+  have hl : (canonicalOrder (keys.take n)).length = n := by
+    rw [Asn1c.Props.C02Uper.canonicalOrder_length, List.length_take]; omega
+  rw [List.drop_append_of_le_length (by omega), List.drop_of_length_le (by omega)]; rfl
+
+/-- a SET without extension additions: the canonical order of all components -/
+theorem setCxerOrder_full (keys : List Tag) : setCxerOrder keys keys.length keys.length = canonicalOrder keys := by
+  simp [setCxerOrder]
+
+/-- the former witness of finding F65, `S1 ::= SET { a [5] INTEGER, ..., b [1] BOOLEAN }`: a, then b (it was b, a: the
+    order of ALL tags); `S4` with `b [APPLICATION 1]` likewise, while without the extension marker b comes first -/
+theorem ref_F65_witness :
+    setCxerOrder [⟨2, 5⟩, ⟨2, 1⟩] 1 2 = [0, 1] ∧ setCxerOrder [⟨2, 5⟩, ⟨1, 1⟩] 1 2 = [0, 1] ∧
+    setCxerOrder [⟨2, 5⟩, ⟨2, 1⟩] 2 2 = [1, 0] ∧ setCxerOrder [⟨2, 7⟩, ⟨2, 3⟩, ⟨2, 9⟩, ⟨2, 0⟩, ⟨1, 2⟩] 2 5 = [1, 0, 2, 3, 4] := by
+  decide
+
+end Asn1c.Props.C06
